@@ -23,6 +23,7 @@ def run(tier, wd):
     # (an option with an empty value, `--src=`, is malformed: not an occurrence)
     a2 = ["x", "--", "--verbose", "-q", "-qs", "-sv", "--src=v", "--source", "--src=", "-s", "--verbose=true", "-s="]
     plans.append(("prog2", g.family(g.PROG2, 6 if tier == "quick" else 80, seed + 2), a2[:9] if tier == "quick" else a2, [[], ["-s"]], 3))
+    core.replay_witnesses(rep, binpath, wd)
     cnt = collections.Counter()
     nontrivial = set()
     for label, specs, alphabet, envsets, maxlen in plans:
